@@ -20,14 +20,15 @@ specs == <<115,112,101,99,115>>
 v1    == <<118,49>>
 apijson == <<97,112,105,46,106,115,111,110>>      \* "api.json"
 cb    == <<47,99,98>>                              \* "/cb"
+myspecs == <<109,121,32,115,112,233,99,115>>        \* "my sp\xe9cs": a space and a non-ASCII byte
 
 Bases == {<<>>, <<SLASH>>, <<SLASH>> \o api, <<SLASH>> \o api \o <<SLASH>>, api}
 Paths == {<<>>, Docs, ui \o <<SLASH>> \o Docs, <<SLASH>> \o Docs \o <<SLASH>>}
 DocNames == {<<>>, apijson}
-SU(k, d, f) == [kind |-> k, dirs |-> d, doc |-> f, host |-> <<104>>, query |-> <<>>]
+SU(k, d, f) == [kind |-> k, dirs |-> d, doc |-> f, host |-> <<104>>, query |-> <<>>, enc |-> TRUE]
 SpecURLs == {SU("default", <<>>, <<>>), SU("abspath", <<>>, SwaggerDoc), SU("abspath", <<specs, v1>>, apijson),
              SU("absurl", <<specs>>, apijson), SU("relative", <<>>, SwaggerDoc), SU("relative", <<specs>>, apijson),
-             SU("abspath", <<specs>>, <<>>)}
+             SU("abspath", <<specs>>, <<>>), SU("abspath", <<myspecs>>, apijson), SU("absurl", <<>>, myspecs)}
 
 Base0 == [kind |-> "spec", base |-> <<>>, path |-> <<>>, doc |-> <<>>, specurl |-> SU("default", <<>>, <<>>),
           oauthurl |-> <<>>, hasnext |-> FALSE, custom |-> FALSE]
@@ -45,6 +46,7 @@ SegOf(id) ==
   CASE id = "docs" -> Docs [] id = "swagger.json" -> SwaggerDoc [] id = "api" -> api [] id = "ui" -> ui
     [] id = "specs" -> specs [] id = "v1" -> v1 [] id = "api.json" -> apijson [] id = "." -> <<DOT>> [] id = ".." -> <<DOT, DOT>>
     [] id = "empty" -> <<>> [] id = "oauth2-callback" -> OAuthCb [] id = "cb" -> <<99,98>> [] id = "docsx" -> Docs \o <<120>>
+    [] id = "my specs" -> myspecs [] id = "my%20specs" -> EncSeg(myspecs)
 
 Init == /\ mode = "start" /\ cfg = Base0 /\ segs = <<>> /\ trail = FALSE /\ payload = <<>>
 
